@@ -7,31 +7,37 @@ open Sodg S
 
 abbrev ACmdC := ACmd Label Hex
 
-/-- run parsed commands on the reference: state, outcome (`ok`/`err`), commands completed, all calls valid -/
-def refScript (n c : Nat) : List (Option ACmdC) → R → List (List Char × Nat) → Nat → Bool → R × String × Nat × Bool
-  | [], r, _, k, v => (r, "ok", k, v)
-  | none :: _, r, _, k, v => (r, "err", k, v)
-  | some cmd :: rest, r, vars, k, v =>
-    let resolve (t : VTok) (r : R) (vars : List (List Char × Nat)) : Option (Nat × R × List (List Char × Nat)) :=
+/-- run parsed commands on the reference: state, outcome (`ok`/`err`), commands completed, all calls valid, and the
+    concrete calls that were made (variables resolved; a `next_id` per new variable) -/
+def refScript (n c : Nat) : List (Option ACmdC) → R → List (List Char × Nat) → Nat → Bool → List Op →
+    R × String × Nat × Bool × List Op
+  | [], r, _, k, v, acc => (r, "ok", k, v, acc)
+  | none :: _, r, _, k, v, acc => (r, "err", k, v, acc)
+  | some cmd :: rest, r, vars, k, v, acc =>
+    let resolve (t : VTok) (r : R) (vars : List (List Char × Nat)) (acc : List Op) :
+        Option (Nat × R × List (List Char × Nat) × List Op) :=
       match t with
-      | .lit x => some (x, r, vars)
+      | .lit x => some (x, r, vars, acc)
       | .var name => match Ss.varLookup vars name with
-        | some i => some (i, r, vars)
+        | some i => some (i, r, vars, acc)
         | none => match r.nextId c with
-          | some (r', i) => some (i, r', (name, i) :: vars)
+          | some (r', i) => some (i, r', (name, i) :: vars, acc ++ [.nextId])
           | none => none
     match cmd with
-    | .add t => match resolve t r vars with
-      | some (i, r, vars) => refScript n c rest (R.step c r (.add i)).1 vars (k + 1) (v && okStepB n c r (.add i))
-      | none => (r, "panic", k, false)
-    | .bind t1 t2 l => match resolve t1 r vars with
-      | some (i1, r, vars) => match resolve t2 r vars with
-        | some (i2, r, vars) => refScript n c rest (R.step c r (.bind i1 i2 l)).1 vars (k + 1) (v && okStepB n c r (.bind i1 i2 l))
-        | none => (r, "panic", k, false)
-      | none => (r, "panic", k, false)
-    | .put t d => match resolve t r vars with
-      | some (i, r, vars) => refScript n c rest (R.step c r (.put i d)).1 vars (k + 1) (v && okStepB n c r (.put i d))
-      | none => (r, "panic", k, false)
+    | .add t => match resolve t r vars acc with
+      | some (i, r, vars, acc) =>
+        refScript n c rest (R.step c r (.add i)).1 vars (k + 1) (v && okStepB n c r (.add i)) (acc ++ [.add i])
+      | none => (r, "panic", k, false, acc)
+    | .bind t1 t2 l => match resolve t1 r vars acc with
+      | some (i1, r, vars, acc) => match resolve t2 r vars acc with
+        | some (i2, r, vars, acc) =>
+          refScript n c rest (R.step c r (.bind i1 i2 l)).1 vars (k + 1) (v && okStepB n c r (.bind i1 i2 l)) (acc ++ [.bind i1 i2 l])
+        | none => (r, "panic", k, false, acc)
+      | none => (r, "panic", k, false, acc)
+    | .put t d => match resolve t r vars acc with
+      | some (i, r, vars, acc) =>
+        refScript n c rest (R.step c r (.put i d)).1 vars (k + 1) (v && okStepB n c r (.put i d)) (acc ++ [.put i d])
+      | none => (r, "panic", k, false, acc)
 
 def wsPool : List Char := [' ', ' ', ' ', '\t', '\n', '\r', Char.ofNat 0xA0, Char.ofNat 0x2003, Char.ofNat 0x3000, Char.ofNat 0x85]
 
